@@ -290,25 +290,30 @@ def correspondence(rep, rng, tier):
   # w in the default list, w <= bitlen(n)/16, at most 32 deviating low-order bits, n of 1024..4096
   # bits. guaranteed[n] = word size; a miss there is a violation (pred below).
   planted = Planted(rep)
+  # the gated members come from a FIXED generator (independent of VERIF_SEED): LLL and the checks are deterministic, so a
+  # member the unchanged tree factors is factored on every run and a miss is a failing input, never a seed-dependent
+  # false alarm (rule of DESIGN 10.7); the families measured beforehand (15 783 / 899 keys, no miss) are the same.
+  import random as _random
+  grng = _random.Random('c05-gated-corpus-v1/' + tier)
   guaranteed = {}
   qpool = {}
 
   def cofactor(bits):
     pool = qpool.setdefault(bits, [])
     if len(pool) < 3:
-      pool.append(gen_rsa.rprime(rng, bits))
-    return rng.choice(pool)
+      pool.append(gen_rsa.rprime(grng, bits))
+    return grng.choice(pool)
   if tier == 'quick':
-    plan = [(1024, w, 1) for w in DEFAULT_PS if w <= 64] + [(2048, w, 1) for w in rng.sample(
-        [w for w in DEFAULT_PS if w <= 128], 3)] + [(4096, rng.choice([255, 256, 127]), 1)]
+    plan = [(1024, w, 1) for w in DEFAULT_PS if w <= 64] + [(2048, w, 1) for w in grng.sample(
+        [w for w in DEFAULT_PS if w <= 128], 3)] + [(4096, grng.choice([255, 256, 127]), 1)]
   else:
     plan = [(bits, w, 3 if bits <= 2048 else 1) for bits in (1024, 1536, 2048, 3072, 4096)
             for w in DEFAULT_PS if w <= bits // 16]
   for bits, w, cnt in plan:
     for _ in range(cnt):
-      t = rng.choice([0, 1, 7, 16, 24, 31, 32, 32])
-      r = gen_rsa.periodic_prime(rng, bits // 2, w, t, attempts=4) or \
-          gen_rsa.periodic_prime(rng, bits // 2, w, 32, attempts=8)
+      t = grng.choice([0, 1, 7, 16, 24, 31, 32, 32])
+      r = gen_rsa.periodic_prime(grng, bits // 2, w, t, attempts=4) or \
+          gen_rsa.periodic_prime(grng, bits // 2, w, 32, attempts=8)
       if r is None:
         rep.notes.append('no planted pattern prime for bits=%d w=%d' % (bits, w))
         continue
@@ -412,14 +417,14 @@ def correspondence(rep, rng, tier):
           break
         combos[bits].append((ws, ps, dbits))
   if tier == 'quick':
-    pplan = [(1024, c) for c in combos[1024]] + [(2048, c) for c in rng.sample(combos[2048], 3)] + \
-            [(4096, rng.choice(combos[4096]))]
+    pplan = [(1024, c) for c in combos[1024]] + [(2048, c) for c in grng.sample(combos[2048], 3)] + \
+            [(4096, grng.choice(combos[4096]))]
   else:
     pplan = [(bits, c) for bits in (1024, 2048, 3072, 4096) for c in combos[bits] for _ in range(2 if bits <= 2048 else 1)]
   for bits, (ws, ps, dbits) in pplan:
-    t = rng.choice([0, 8, 16, 24, 32, 32])
-    r = gen_rsa.swapped_prime(rng, bits // 2, ps, ws, t, attempts=4) or \
-        gen_rsa.swapped_prime(rng, bits // 2, ps, ws, 32, attempts=8)
+    t = grng.choice([0, 8, 16, 24, 32, 32])
+    r = gen_rsa.swapped_prime(grng, bits // 2, ps, ws, t, attempts=4) or \
+        gen_rsa.swapped_prime(grng, bits // 2, ps, ws, 32, attempts=8)
     if r is None:
       rep.notes.append('no planted swapped-limb prime for bits=%d ws=%d ps=%d' % (bits, ws, ps))
       continue
